@@ -190,7 +190,15 @@ def judge(case, ctx, ds, dataset):
     elif starters:
         logs = [[] for _ in starters]
         proxies = [make_proxy(libx.make_algorithm(s), lg) for s, lg in zip(starters, logs)]
-        st, cons = call(lambda: ck.BioConsert(starting_algorithms=proxies).compute_consensus_rankings(dataset, scheme, False))
+        # the starting algorithms are given as a list, or as another re-iterable collection / a one-shot iterator
+        # (a one-shot generator is consumed by the constructor's own validation loop today: not a supported form, not used)
+        container = ["list", "list", "tuple", "dict-values", "set", "frozenset"][case["libseed"] % 6]
+        given = {"list": lambda: list(proxies), "tuple": lambda: tuple(proxies),
+                 "dict-values": lambda: {i: p_ for i, p_ in enumerate(proxies)}.values(), "set": lambda: set(proxies),
+                 "frozenset": lambda: frozenset(proxies)}[container]()
+        ctx.count("starters_given_as:" + container)
+        sub["starters_given_as"] = container
+        st, cons = call(lambda: ck.BioConsert(starting_algorithms=given).compute_consensus_rankings(dataset, scheme, False))
         label = "BioConsert[" + ",".join(starters) + "]"
     else:
         st, cons = call(lambda: ck.BioConsert().compute_consensus_rankings(dataset, scheme, False))
@@ -275,6 +283,8 @@ def reach(counters, tier, info):
     for name, key, need in [("runs whose starting ranking lists the elements in an order different from the id order",
                              "scrambled_starts", 500 * k), ("starting points compared", "starts_compared", 1500 * k),
                             ("runs on more than 1000 elements", "runs_on_more_than_1000_elements", 2),
+                            ("runs whose starters were given as a dict view", "starters_given_as:dict-values", 40 * k),
+                            ("runs whose starters were given as a set", "starters_given_as:set", 40 * k),
                             ("Dataset objects aggregated again after an in-place mutation", "runs_after_in_place_mutation", 400 * k),
                             ("... where the step is remove_empty_rankings", "history:remove_empty", 15 * k),
                             ("runs on 63-1025 elements / 40-257 rankings with starters", "xlarge_runs", 6 if tier == "quick" else 24),
